@@ -22,7 +22,7 @@ def tokens_of(dom, s):
         if s.cls is dom.Range:
             for b in (s.f.get("min"), s.f.get("max")):
                 if isinstance(b, VTok):
-                    out.add(b.rank)
+                    out.add(dom.ix(b))
         elif s.cls is dom.Union:
             for r in s.f.get("ranges") or ():
                 out |= tokens_of(dom, r)
@@ -81,6 +81,11 @@ def _judge(dom, fails, opn, la, lb, a, b, kind, r, path, exp):
 
 
 def run(chk):
+    from ..specalg import with_fallback
+    with_fallback(chk, _run)
+
+
+def _run(chk):
     K = 3 if chk.tier == "quick" else 4
     src = str(chk.src)
     chk.explanation = (
